@@ -89,33 +89,52 @@ pub fn run(ctx: &Ctx) -> i32 {
                 subsets.push(s);
             }
         }
-        let mut cases: Vec<(Vec<usize>, Vec<usize>)> = Vec::new();
+        // entry alpha patterns (the mapper must ignore the entries' alpha): all opaque, all 0, alternating, all 128
+        let mut cases: Vec<(Vec<usize>, Vec<usize>, usize)> = Vec::new();
         for s in &subsets {
             for asg in product_vec(&vec![3usize; s.len()]) {
-                cases.push((s.clone(), asg));
+                for ap in 0..5usize {
+                    if ap > 0 && s.contains(&5) && !thorough {
+                        continue;
+                    }
+                    cases.push((s.clone(), asg.clone(), ap));
+                }
             }
         }
         let queries: Vec<[u8; 3]> = vec![[10, 20, 30], [200, 100, 50], [10, 30, 20], [20, 10, 30], [30, 20, 10], [20, 30, 10], [30, 10, 20], [1, 2, 3], [50, 100, 200]];
-        ctx.family("mapper", cases.len() as u64 * 6, "palettes built through real files (new-format chunk): every assignment of colours {c1,c2,c3} (c3 = c1 with green/blue swapped) to every index subset of size <= 4 of {0,1,255,256,257,70000} (filler entries elsewhere) x failure {0,7} x transparent {None,Some(0),Some(9)}; queries: the colours, all channel permutations of c1, absent colours x alpha {0,1,254,255}", true);
-        cases.par_iter().for_each(|(s, asg)| {
+        ctx.family("mapper", cases.len() as u64 * 6, "palettes built through real files (new-format chunk): every assignment of colours {c1,c2,c3} (c3 = c1 with green/blue swapped) to every index subset of size <= 4 of {0,1,255,256,257,70000} (filler entries elsewhere) x entry-alpha pattern {mixed, all 0, alternating 255/0, alternating 0/255, all 128} x failure {0,7} x transparent {None,Some(0),Some(9)}; queries: the colours, all channel permutations of c1, absent colours x alpha {0,1,254,255}", true);
+        cases.par_iter().for_each(|(s, asg, ap)| {
             let maxi = s.iter().map(|i| idxs[*i]).max().unwrap();
             let n = maxi as usize + 1;
             let mut ents: Vec<PalEntry> = (0..n as u32).map(|i| pal_entry([(i & 255) as u8, ((i >> 8) & 255) as u8, 77, 255], None)).collect();
             for (k, i) in s.iter().enumerate() {
                 let c = cols[asg[k]];
-                ents[idxs[*i] as usize] = pal_entry([c[0], c[1], c[2], if k % 2 == 0 { 255 } else { 128 }], None);
+                let a = match ap {
+                    0 => {
+                        if k % 2 == 0 {
+                            255
+                        } else {
+                            128
+                        }
+                    }
+                    1 => 0,
+                    2 => [255u8, 0][k % 2],
+                    3 => [0u8, 255][k % 2],
+                    _ => 128,
+                };
+                ents[idxs[*i] as usize] = pal_entry([c[0], c[1], c[2], a], None);
             }
             let mut f = gen::file(1, 1, &Fmt::Rgba, &[1]);
             f.frames[0].push(new_palette(0, ents));
             let bytes = f.encode();
             let Loaded::Ok(file) = load(&bytes) else {
-                ctx.violation(Violation { family: "mapper".into(), case: format!("{:?}/{:?}", s, asg), sig: "palette-file-refused".into(), detail: "palette file did not load".into(), bytes: None, extra: json!({}) });
+                ctx.violation(Violation { family: "mapper".into(), case: format!("{:?}/{:?}/{}", s, asg, ap), sig: "palette-file-refused".into(), detail: "palette file did not load".into(), bytes: None, extra: json!({}) });
                 return;
             };
             let pal = file.palette().unwrap();
             for failure in [0u8, 7] {
                 for tr in [None, Some(0u8), Some(9)] {
-                    let case = || format!("indices={:?} colours={:?} failure={} transparent={:?}", s.iter().map(|i| idxs[*i]).collect::<Vec<_>>(), asg, failure, tr);
+                    let case = || format!("indices={:?} colours={:?} alphas#{} failure={} transparent={:?}", s.iter().map(|i| idxs[*i]).collect::<Vec<_>>(), asg, ap, failure, tr);
                     if !ctx.wants("mapper", &case) {
                         continue;
                     }
